@@ -1389,3 +1389,85 @@ func (x *FnIndex) nilOnAllPaths(pv PVal, at ssa.Instruction) bool {
 	})
 	return !found
 }
+
+// flowsTo: does the value reach (through local variables, conversions, reflect accessors,
+// interface boxing and the given pass-through functions) an instruction for which sink() holds?
+// sink receives the instruction and the operand index at which the value arrives.
+func (x *FnIndex) flowsTo(v ssa.Value, passThrough func(*ssa.Call) bool, sink func(in ssa.Instruction, v ssa.Value) bool) bool {
+	seen := map[ssa.Value]bool{}
+	work := []ssa.Value{v}
+	for len(work) > 0 {
+		cur := work[len(work)-1]
+		work = work[:len(work)-1]
+		if cur == nil || seen[cur] {
+			continue
+		}
+		seen[cur] = true
+		refs := cur.Referrers()
+		if refs == nil {
+			continue
+		}
+		for _, r := range *refs {
+			if sink(r, cur) {
+				return true
+			}
+			switch t := r.(type) {
+			case *ssa.Store:
+				if t.Val == cur {
+					if al, ok := x.ResolveAddr(t.Addr).(*ssa.Alloc); ok {
+						// every load of the cell
+						for _, f := range x.Fns {
+							eachInstr(f, func(in ssa.Instruction) {
+								if u, ok := in.(*ssa.UnOp); ok && u.Op == token.MUL && x.ResolveAddr(u.X) == ssa.Value(al) {
+									work = append(work, u)
+								}
+							})
+						}
+					}
+				}
+			case *ssa.Convert:
+				work = append(work, t)
+			case *ssa.ChangeType:
+				work = append(work, t)
+			case *ssa.MakeInterface:
+				work = append(work, t)
+			case *ssa.Extract:
+				work = append(work, t)
+			case *ssa.Phi:
+				work = append(work, t)
+			case *ssa.Call:
+				name, cc := "", t.Common()
+				if cal := cc.StaticCallee(); cal != nil {
+					name = cal.Name()
+					if cal.Pkg != nil && cal.Pkg.Pkg.Path() == "reflect" && (name == "Int" || name == "Uint" || name == "Float" || name == "String" || name == "Elem" || name == "ValueOf" || name == "Interface") {
+						work = append(work, t)
+					}
+				}
+				if passThrough != nil && passThrough(t) {
+					work = append(work, t)
+				}
+			}
+		}
+	}
+	return false
+}
+
+// onlyNormalExit: the loop is left only from its header (no break / return inside the body).
+func (l *Loop) onlyNormalExit() bool {
+	for b := range l.Blocks {
+		if b == l.Head {
+			continue
+		}
+		for _, s := range b.Succs {
+			if !l.Blocks[s] {
+				return false
+			}
+		}
+		if len(b.Instrs) > 0 {
+			if _, isRet := b.Instrs[len(b.Instrs)-1].(*ssa.Return); isRet {
+				return false
+			}
+		}
+	}
+	return true
+}
